@@ -361,7 +361,7 @@ func vC04Run(t *testing.T, c *vh.Case, sc vC04Sc) *vC04Res {
 			sp.Dead = true
 			continue
 		}
-		idx, kk := i, kind
+		idx, kk, pid := i, kind, id
 		sp.Script = func(cnt int, req *pb.Message) vsim.Reply {
 			if req == nil {
 				return vsim.Reply{}
@@ -387,8 +387,8 @@ func vC04Run(t *testing.T, c *vh.Case, sc vC04Sc) *vC04Res {
 			if req.GetType() == pb.Message_GET_VALUE && string(req.GetKey()) == sc.Key {
 				rep.Mutate = func(_, resp *pb.Message) {
 					switch {
-					case has:
-						resp.Record = vC04Clone(rec)
+					case res.recs[pid] != nil: // read at reply time: a holder may have been given the bytes of the local record below
+						resp.Record = vC04Clone(res.recs[pid])
 					case kk == "nilrecord":
 						resp.Record = (*recpb.Record)(nil)
 					}
@@ -427,6 +427,17 @@ func vC04Run(t *testing.T, c *vh.Case, sc vC04Sc) *vC04Res {
 			got, err := n.D.getLocal(ctx0, sc.Key)
 			if err != nil || got == nil || string(got.GetValue()) != string(localRec.GetValue()) {
 				c.Fail("harness-dskey-selfcheck", "a valid record written at %s is not returned by getLocal (%v, %v)", dsk, got, err)
+			}
+		}
+	}
+	// we usually hold a record because we are one of its holders: a quarter of the answering peers serve the very
+	// bytes of the local record (also when the validator rejects it by now)
+	if localRec != nil && string(localRec.GetKey()) == sc.Key && len(localRec.GetValue()) > 0 {
+		for _, id := range n.IDs {
+			if k := strings.Split(res.kinds[id], "/"); len(k) == 3 && k[0] != "dead" && r.Intn(4) == 0 {
+				res.kinds[id] = k[0] + "/" + localKind + "/" + k[2]
+				res.recs[id] = &recpb.Record{Key: []byte(sc.Key), Value: append([]byte(nil), localRec.GetValue()...)}
+				c.Obs("holders_of_the_local_bytes", 1)
 			}
 		}
 	}
